@@ -90,8 +90,11 @@ LIBRARY = {
     "CNOT": (1, 1, 0), "CSIGN": (1, 1, 0), "CRX": (1, 1, 1), "CRY": (1, 1, 1), "CRZ": (1, 1, 1),
     "CY": (1, 1, 0), "CX": (1, 1, 0), "CZ": (1, 1, 0), "CS": (1, 1, 0), "CT": (1, 1, 0), "CPHASE": (1, 1, 1),
     "TOFFOLI": (2, 1, 0), "FREDKIN": (1, 2, 0),
+    "iSWAP": (0, 2, 0), "SWAPalpha": (0, 2, 1),          # other spellings accepted by add_gate (kept as the gate's name)
 }
 ALIASES = {"iSWAP": "ISWAP", "SWAPalpha": "SWAPALPHA"}
+# other spellings with the same operator (`aliasOf` of lean/QipVerif/Lemmas/SchedFull.lean); compared on the real library
+SAME_OPERATOR = {"H": "SNOT", "CX": "CNOT", "iSWAP": "ISWAP", "SWAPalpha": "SWAPALPHA"}
 ORDERED_TARGETS = {"RZX"}          # the only library gate with two targets that are not interchangeable
 # one representative per class the scheduler can distinguish (name tests of commutation_rules,
 # shape of controls/targets) -- used for the exhaustive length-3 enumeration
@@ -103,7 +106,7 @@ ANGLES = [0.3, 1.1, 2.3, 0.7, 1.9, 2.9]
 def library_check():
     """names of GATE_CLASS_MAP that this table does not know (reported as a note)"""
     from qutip_qip.operations.gateclass import GATE_CLASS_MAP
-    known = set(LIBRARY) | set(ALIASES)
+    known = set(LIBRARY)
     return sorted(set(GATE_CLASS_MAP) - known), sorted(known - set(GATE_CLASS_MAP))
 
 
@@ -168,58 +171,28 @@ def ins_fields(ins):
     return ins.name, ts, cs
 
 
-_SC = {}
-
-
 def self_commuting_names():
     """The module-level set `_SELF_COMMUTING_GATES` of scheduler.py of the tree under test, read with `ast`
-    (never by importing): a frozenset of names, or None when the module has no such set (then every same-name
-    pair is subject to the controls/targets test).  The model's `Ins.sc` flag is computed from it."""
-    import ast, os
-    from vlib import paths
-    from vlib.core import TranslatorError
-    path = os.path.join(paths.REPO, "src", "qutip_qip", "compiler", "scheduler.py")
-    key = (path, os.path.getmtime(path))
-    if key in _SC:
-        return _SC[key]
-    tree = ast.parse(open(path).read())
-    found = None
-    for node in tree.body:
-        if isinstance(node, ast.Assign) and any(isinstance(t, ast.Name) and t.id == "_SELF_COMMUTING_GATES"
-                                                 for t in node.targets):
-            v = node.value
-            if isinstance(v, ast.Call) and isinstance(v.func, ast.Name) and v.func.id in ("frozenset", "set") \
-                    and len(v.args) == 1:
-                v = v.args[0]
-            if isinstance(v, (ast.List, ast.Tuple, ast.Set)) and all(
-                    isinstance(e, ast.Constant) and isinstance(e.value, str) for e in v.elts):
-                found = frozenset(e.value for e in v.elts)
-            else:
-                raise TranslatorError("_SELF_COMMUTING_GATES of scheduler.py is not a literal set of strings")
-    _SC.clear()
-    _SC[key] = found
-    return found
-
-
-_FX = {}
+    (py/translate/sched.py, never by importing): a frozenset of names, or None when the module has no such set (then
+    every same-name pair is subject to the controls/targets test).  The model gets the same set through the regenerated
+    lean/QipVerif/Gen/SchedRule.lean; here it only delimits the class of the recorded finding for the oracles."""
+    from translate import sched
+    names = sched.info()["names"]
+    return None if names is None else frozenset(names)
 
 
 def conflict_fix_flag():
-    """1 when `_add_dependency_among_commuting_gates` of the tree under test takes the parameter `executed`
-    (the repaired recording of conflict edges, fixes/C11-1.patch), read with `ast`; the model's `Cfg.fx`."""
-    import ast, os
-    from vlib import paths
-    path = os.path.join(paths.REPO, "src", "qutip_qip", "compiler", "scheduler.py")
-    key = (path, os.path.getmtime(path))
-    if key not in _FX:
-        _FX.clear()
-        flag = 0
-        for node in ast.walk(ast.parse(open(path).read())):
-            if isinstance(node, ast.FunctionDef) and node.name == "_add_dependency_among_commuting_gates":
-                if any(a.arg == "executed" for a in node.args.args + node.args.kwonlyargs):
-                    flag = 1
-        _FX[key] = flag
-    return _FX[key]
+    """1 when `_add_dependency_among_commuting_gates` of the tree under test records conflict edges from the already
+    executed instructions (the repair of C11), read with `ast` by py/translate/sched.py; the model reads the same flag
+    from the regenerated Gen/SchedRule.lean (`conflictFix`)."""
+    from translate import sched
+    return 1 if sched.info()["conflict_fix"] else 0
+
+
+def regenerate():
+    """rewrite lean/QipVerif/Gen/SchedRule.lean from the tree under test (set, rule, conflict-edge flag)"""
+    from translate import sched
+    return sched.regenerate()
 
 
 def sc_flag(name):
@@ -228,7 +201,8 @@ def sc_flag(name):
 
 
 def enc_ins(name, ts, cs, dur):
-    return f"{name}:{','.join(map(str, ts))}:{','.join(map(str, cs))}:{dur}:{sc_flag(name)}"
+    """the flag `sc` of the model's instruction is computed by the driver from the regenerated set"""
+    return f"{name}:{','.join(map(str, ts))}:{','.join(map(str, cs))}:{dur}"
 
 
 def model_line(method, perm, fields, shuf=None):
@@ -236,9 +210,7 @@ def model_line(method, perm, fields, shuf=None):
     line = f"sched method={method} perm={1 if perm else 0} gates=" + "|".join(enc_ins(*f) for f in fields)
     if shuf:
         line += " shuf=" + ";".join(",".join(map(str, p)) for p in shuf)
-    if conflict_fix_flag():
-        line += " fix=1"
-    return line
+    return line        # `Cfg.fx` is `Gen.SchedRule.conflictFix`, regenerated from the tree
 
 
 def parse_model(ans):
